@@ -114,6 +114,8 @@ var jsonDict = gen.Words(
 )
 
 var jsCorpus = gen.Words(
+	"({...a = 1}) => 0; ([{...b = 1}]) => 0; ({...[c].d}) => 0; ({...{e}.f}, g) => 1",
+	"async ({...a = 1}, [b, ...[c = 2]]) => { var {x, ...y} = z; ({p, ...q.r} = s) }",
 	"x = 1\n--> html-like close comment\ny = 2",
 	"/* multi\nline */ --> also a comment\nz",
 	"<!-- html-like open comment\na = b --> c",
